@@ -223,17 +223,18 @@ fn cli_case(ctx: &Ctx, ch: &mut Ch, scratch: &cli::Scratch, launches: usize) -> 
 }
 
 pub fn def(tier: Tier) -> CheckDef {
-    let launches = tier.pick(6, 20);
-    let cli_rounds = tier.pick(1, 8);
+    let launches = tier.pick(6, 12);
+    let cli_rounds = tier.pick(1, 4);
     CheckDef {
         id: "C13",
         level: "exploration",
-        rule: "proptest-generated files: programs whose first definition mentions 2-6 later non-value definitions (1-3 such groups), several unbound names / re-bindings, 2-6 independent type errors, several unexpected symbols, mixtures, random ill-typed programs, accepted programs, syntax near-misses, invalid UTF-8 and the empty file; each file is run 6 (quick) / 20 (thorough) times per sub-command (`check`, `run`) as separate processes (fresh hash seeds) and (exit status, stdout, stderr) must be byte-identical; in-process companion: parse() called 10 times on the same tokens must return the same diagnostics in the same order; non-trivial = the output has >= 2 diagnostics; distinct by file content",
+        rule: "proptest-generated files: programs whose first definition mentions 2-6 later non-value definitions (1-3 such groups), several unbound names / re-bindings, 2-6 independent type errors, several unexpected symbols, mixtures, random ill-typed programs, accepted programs, syntax near-misses, invalid UTF-8 and the empty file; each file is run 6 (quick) / 12 (thorough) times per sub-command (`check`, `run`) as separate processes (fresh hash seeds) and (exit status, stdout, stderr) must be byte-identical; in-process companion: parse() called 10 times on the same tokens must return the same diagnostics in the same order; non-trivial = the output has >= 2 diagnostics; distinct by file content",
         assumptions: vec![
             "a permutation of k diagnostics escapes one file with probability at most (1/k!)^(launches-1); hundreds of such files are generated per run",
         ],
         idle_limit_s: 300,
         needs_cli: true,
+        fuzz: None,
         parts: vec![
             Part {
                 name: "in-process",
@@ -241,7 +242,7 @@ pub fn def(tier: Tier) -> CheckDef {
                 run: Box::new(|ctx, r| ctx.prop("in-process", r, 500, 200, in_process_case)),
                 replay: Some(Box::new(|ctx, inp| match inp {
                     ReplayInput::Choices(c) => in_process_case(ctx, &mut Ch::new(c)),
-                    ReplayInput::Text(_) => Err(Failure::new("this part replays from choices", "")),
+                    _ => Err(Failure::new("this part replays from choices", "")),
                 })),
             },
             Part {
@@ -256,7 +257,7 @@ pub fn def(tier: Tier) -> CheckDef {
                         let scratch = cli::Scratch::new("c13-replay");
                         cli_case(ctx, &mut Ch::new(c), &scratch, 20)
                     }
-                    ReplayInput::Text(_) => Err(Failure::new("this part replays from choices", "")),
+                    _ => Err(Failure::new("this part replays from choices", "")),
                 })),
             },
         ],
